@@ -85,7 +85,8 @@ pub fn gen_cfg(prop: &str, rng: &mut Rng) -> GenCfg {
             c.vmod = 5;
             c.hist_len = (30, 70);
         }
-        "C09" => {
+        // C08's single-handle histories use the C09 family (durabilities, collection across revisions)
+        "C09" | "C08" => {
             c.kinds = vec![(Kind::Plain, 6)];
             c.intern = vec![Sym::K1, Sym::K2, Sym::K3, Sym::Imm];
             c.on_sym = true;
@@ -126,6 +127,94 @@ pub fn acyclic_case(o: &Opts, case_seed: u64) -> CaseReport {
     run_history(o, &cfg, &prog, &hist, case_seed)
 }
 
+/// C08: the handles each function activation interned during its latest completed execution, and
+/// the activations it called. A request that returns a value has validated (or executed) the
+/// requested function in the current revision, so every handle its memo and the memos below it
+/// hold must still denote the value it was interned for.
+#[derive(Default)]
+struct HeldHandles {
+    clock: u64,
+    by_act: std::collections::HashMap<ActK, (Vec<(u8, u16, u32, u32)>, Vec<ActK>)>,
+}
+
+impl HeldHandles {
+    fn update(&mut self, log: &crate::log::Log) {
+        let recs = log.since(self.clock);
+        self.clock = log.now();
+        for e in mon::executions(&recs) {
+            if e.value.is_none() {
+                self.by_act.remove(&e.act);
+                continue;
+            }
+            let mut hs = vec![];
+            let mut callees = vec![];
+            for (_, it) in &e.items {
+                match it {
+                    mon::Item::Interned(t, v, idx, g) => hs.push((*t, *v, *idx, *g)),
+                    mon::Item::Read(ReadK::Call(f, n, a), _) => callees.push(ActK {
+                        f: *f,
+                        node: *n,
+                        arg: *a,
+                        key_idx: 0,
+                        key_gen: 0,
+                    }),
+                    _ => {}
+                }
+            }
+            self.by_act.insert(e.act, (hs, callees));
+        }
+    }
+
+    fn read_back(&self, runner: &Runner, prog: &Prog, req: &Req, counts: &mut Counts) -> Option<String> {
+        let (n, arg) = match req {
+            Req::Node(n) => (*n, 0u16),
+            Req::Multi(n, a) => (*n, *a),
+            _ => return None,
+        };
+        let root = self
+            .by_act
+            .keys()
+            .find(|a| a.node as usize == n && a.arg == arg && a.f == crate::world::fnk_of(prog.nodes[n].kind))
+            .copied()?;
+        let mut seen = std::collections::BTreeSet::new();
+        let mut todo = vec![root];
+        while let Some(a) = todo.pop() {
+            if !seen.insert(a) {
+                continue;
+            }
+            let Some((hs, callees)) = self.by_act.get(&a) else { continue };
+            for (t, v, idx, g) in hs {
+                let Some(id) = runner.ctx.handles.lock().unwrap().get(&(*t, *idx, *g)).copied() else { continue };
+                let sym = Sym::ALL[*t as usize];
+                let r = crate::sink::with_detached(|| {
+                    std::panic::catch_unwind(std::panic::AssertUnwindSafe(|| {
+                        crate::world::read_sym(&runner.world, sym, id)
+                    }))
+                });
+                counts.inc("held_handles_read_back");
+                match r {
+                    Ok(back) if back == *v => {}
+                    Ok(back) => {
+                        return Some(format!(
+                            "handle ({idx},{g}) of {sym:?} interned for value {v} by n{} (memo valid in this revision, reached from {req:?}) reads {back}",
+                            a.node
+                        ));
+                    }
+                    Err(p) => {
+                        return Some(format!(
+                            "reading handle ({idx},{g}) of {sym:?} interned for value {v} by n{} (memo valid in this revision, reached from {req:?}) panicked: {}",
+                            a.node,
+                            crate::single::payload_msg(&*p)
+                        ));
+                    }
+                }
+            }
+            todo.extend(callees.iter().copied());
+        }
+        None
+    }
+}
+
 pub fn run_history(o: &Opts, _cfg: &GenCfg, prog: &Prog, hist: &[Step], case_seed: u64) -> CaseReport {
     let mut rep = CaseReport::new();
     rep.sample = format!("PROG {prog} HISTORY {}", fmt_history(hist));
@@ -140,10 +229,25 @@ pub fn run_history(o: &Opts, _cfg: &GenCfg, prog: &Prog, hist: &[Step], case_see
         .step_bound
         .store(4 * 200 * (prog.nodes.len() as u64 + 2).pow(2), std::sync::atomic::Ordering::Relaxed);
     let do_fresh = case_seed % 8 == 0 && !o.retain;
+    let c08 = o.prop == "C08";
+    runner
+        .ctx
+        .keep_handles
+        .store(c08, std::sync::atomic::Ordering::Relaxed);
+    let mut held = HeldHandles::default();
     for (si, step) in hist.iter().enumerate() {
         match step {
             Step::Req(req) => {
                 let got = runner.request(req);
+                if c08 {
+                    held.update(&runner.ctx.log);
+                    if let (Req::Node(_) | Req::Multi(..), Outcome::Val(_)) = (req, &got) {
+                        if let Some(m) = held.read_back(&runner, prog, req, &mut rep.counts) {
+                            rep.violations.push(format!("step {si}: {m}"));
+                            break;
+                        }
+                    }
+                }
                 let (exp, calls) = match req {
                     Req::Entries => (Expect::Ents(vec![]), vec![]),
                     _ => refint::expect_req_calls(prog, &runner.inp, req),
@@ -268,6 +372,16 @@ pub fn run_history(o: &Opts, _cfg: &GenCfg, prog: &Prog, hist: &[Step], case_see
             rep.violations.extend(v);
             rep.counts.merge(&c);
         }
+        "C08" => {
+            // only the identity clauses of the retention monitor: one handle per value and one
+            // value per handle within a revision, identity kept while the slot is not reclaimed
+            let (v, c) = crate::mon_misc::check_retention(prog, &log, &runner.ctx);
+            rep.violations.extend(
+                v.into_iter()
+                    .filter(|m| m.contains("denotes value") || m.contains("changed identity") || m.contains("in one revision")),
+            );
+            rep.counts.merge(&c);
+        }
         "C10" => {
             let (v, c) = crate::mon_misc::check_specify(prog, &log);
             rep.violations.extend(v);
@@ -300,6 +414,7 @@ pub fn run_history(o: &Opts, _cfg: &GenCfg, prog: &Prog, hist: &[Step], case_see
         "C06" => s.get("identity_preserved") > 0 && s.get("ev_did_discard") > 0,
         "C07" => s.get("ev_reuse_interned") > 0 || s.get("tracked_slot_reuse") > 0,
         "C09" => s.get("ev_reuse_interned") > 0 || s.get("interned_survivals") > 0,
+        "C08" => s.get("interned_identity_kept") > 0 && s.get("ev_reuse_interned") > 0,
         "C10" => s.get("specified") > 0 && s.get("spec_served") > 0,
         "C11" => s.get("pushed") > 0 && s.get("ev_validate") > 0 && s.get("accum_nonempty") > 0,
         _ => true,
@@ -405,6 +520,14 @@ pub fn cyc_expect(prop: &str, prog: &Prog, inp: &refint::Inputs, n: usize) -> Op
 
 /// True if no non-monotone operator is reachable under the current inputs.
 fn is_monotone_now(prog: &Prog, inp: &refint::Inputs) -> bool {
+    monotone_now(prog, inp, None)
+}
+
+fn node_monotone_now(prog: &Prog, inp: &refint::Inputs, m: usize) -> bool {
+    monotone_now(prog, inp, Some(m))
+}
+
+fn monotone_now(prog: &Prog, inp: &refint::Inputs, only: Option<usize>) -> bool {
     fn cond(e: &Expr, inp: &refint::Inputs) -> Option<u16> {
         Some(match e {
             Expr::Const(c) => *c,
@@ -436,7 +559,74 @@ fn is_monotone_now(prog: &Prog, inp: &refint::Inputs) -> bool {
             _ => false,
         }
     }
-    prog.nodes.iter().all(|n| mono(&n.body, inp))
+    match only {
+        Some(m) => mono(&prog.nodes[m].body, inp),
+        None => prog.nodes.iter().all(|n| mono(&n.body, inp)),
+    }
+}
+
+/// C15 oracle precondition. salsa's contract for fixpoint functions is that bodies and
+/// `cycle_fn` are monotone; the C15 programs break it on purpose while the switch input is odd.
+/// A memo completed in such a revision may hold a value that is not a function of its
+/// dependencies (the join of an oscillating sequence, some non-least fixpoint), and salsa is
+/// entitled to keep it while its dependencies' stamps do not move. `taint[m]` says that the memo
+/// m currently holds is, or was computed from, such a value; requests whose memo is tainted are
+/// not judged against the reference. Memos of a cycle that ended in the iteration-limit panic are
+/// *not* excused: they are provisional and must not survive.
+pub fn update_taint(prog: &Prog, inp: &refint::Inputs, recs: &[Stamped], taint: &mut [bool]) {
+    let execs = mon::executions(recs);
+    let nn = prog.nodes.len();
+    let edges = refint::call_edges(prog, inp);
+    let (comp, _) = refint::sccs(&edges);
+    let mut last: Vec<Option<usize>> = vec![None; nn];
+    let mut unwound = vec![false; nn];
+    for (i, e) in execs.iter().enumerate() {
+        let m = e.act.node as usize;
+        if m >= nn {
+            continue;
+        }
+        if e.value.is_some() {
+            last[m] = Some(i);
+        } else {
+            unwound[m] = true;
+        }
+    }
+    for m in 0..nn {
+        if last[m].is_some() && (0..nn).any(|u| unwound[u] && comp[u] == comp[m]) {
+            last[m] = None;
+        }
+    }
+    let mut t_new: Vec<bool> = (0..nn)
+        .map(|m| last[m].is_some() && !node_monotone_now(prog, inp, m))
+        .collect();
+    loop {
+        let mut changed = false;
+        for m in 0..nn {
+            let Some(i) = last[m] else { continue };
+            if t_new[m] {
+                continue;
+            }
+            let dirty = execs[i].reads.iter().any(|(rk, _)| match rk {
+                ReadK::Call(_, c, _) => {
+                    let c = *c as usize;
+                    c < nn && if last[c].is_some() { t_new[c] } else { taint[c] }
+                }
+                _ => false,
+            });
+            if dirty {
+                t_new[m] = true;
+                changed = true;
+            }
+        }
+        if !changed {
+            break;
+        }
+    }
+    for m in 0..nn {
+        if last[m].is_some() {
+            taint[m] = t_new[m];
+        }
+    }
 }
 
 pub fn cyclic_case(o: &Opts, case_seed: u64) -> CaseReport {
@@ -506,6 +696,8 @@ pub fn cyclic_case(o: &Opts, case_seed: u64) -> CaseReport {
     let mut mismatch: Option<(usize, Outcome)> = None;
     let mut panicked_in_rev = false;
     let mut diverged_before = false;
+    let mut taint = vec![false; prog.nodes.len()];
+    let mut taint_clock = 0u64;
     for (si, step) in hist.iter().enumerate() {
         match step {
             Step::Req(Req::Node(n)) => {
@@ -529,7 +721,17 @@ pub fn cyclic_case(o: &Opts, case_seed: u64) -> CaseReport {
                         break;
                     }
                 }
-                match cyc_expect(&o.prop, &prog, &runner.inp, *n) {
+                let mut exp = cyc_expect(&o.prop, &prog, &runner.inp, *n);
+                if o.prop == "C15" {
+                    let recs = runner.ctx.log.since(taint_clock);
+                    taint_clock = runner.ctx.log.now();
+                    update_taint(&prog, &runner.inp, &recs, &mut taint);
+                    if exp.is_some() && taint[*n] && matches!(got, Outcome::Val(_)) {
+                        rep.counts.inc("requests_not_judged_memo_from_nonmonotone_revision");
+                        exp = None;
+                    }
+                }
+                match exp {
                     Some(exp) => {
                         rep.counts.inc("decided_requests");
                         if diverged_before && info.in_cycle {
@@ -765,92 +967,6 @@ pub fn classify_cyc_mismatch(
         .iter()
         .all(|x| matches!(x.kind, Kind::Fix | Kind::FixJ));
     if all_fix {
-        // F17: in some earlier revision the bodies were non-monotone (the cycle's result there is
-        // *some* fixpoint or garbage); now they are monotone, a cycle member was re-executed and
-        // its value changed although none of its dependencies carries a newer stamp, so a
-        // function that read it is validated green with the old value.
-        {
-            let mut hist_inp = refint::Inputs {
-                cells: vec![[0, 0]; prog.ncells],
-                unt: inp.unt.clone(),
-            };
-            let mut nonmono_before = false;
-            for (_, _, r) in &log[..start] {
-                match r {
-                    Rec::SetField(c, f, v, _) => hist_inp.cells[*c as usize][*f as usize] = *v,
-                    Rec::WriteDone(..) => {
-                        if !is_monotone_now(prog, &hist_inp) {
-                            nonmono_before = true;
-                        }
-                    }
-                    _ => {}
-                }
-            }
-            // the state before the last write group
-            if !is_monotone_now(prog, &hist_inp) {
-                nonmono_before = true;
-            }
-            if nonmono_before && is_monotone_now(prog, inp) && !executed_now(n) && validated_now(n) {
-                // values handed out for each callee before and after the last write
-                let observed = |c: usize, slice: &[Stamped]| -> Option<u16> {
-                    let mut last = None;
-                    let mut pending_top: Option<usize> = None;
-                    for (_, _, r) in slice {
-                        match r {
-                            Rec::Read(ReadK::Call(_, m, _), v) if *m as usize == c => last = Some(*v),
-                            Rec::Call(_, Req::Node(x)) => pending_top = Some(*x),
-                            Rec::Ret(_, Outcome::Val(v)) => {
-                                if pending_top.take() == Some(c) {
-                                    last = Some(*v);
-                                }
-                            }
-                            _ => {}
-                        }
-                    }
-                    last
-                };
-                // n's memo was computed from callee values that salsa no longer hands out
-                let execs_all = mon::executions(log);
-                let last_n = execs_all
-                    .iter()
-                    .rev()
-                    .find(|e| e.act.node as usize == n && e.value.is_some());
-                let changed_callee = match last_n {
-                    None => false,
-                    Some(e) => {
-                        // best estimate of the value each function's memo holds now: its last
-                        // completed execution (joined by cycle_fn where that applies) or, later,
-                        // what salsa handed out for it
-                        let mut cur_val: Vec<Option<u16>> = vec![None; prog.nodes.len()];
-                        let mut pending_top: Option<usize> = None;
-                        for (_, _, r) in log {
-                            match r {
-                                Rec::Exit(a, v) => cur_val[a.node as usize] = Some(*v),
-                                Rec::CycleFn(m, _, last, new) => cur_val[*m] = Some(*last | *new),
-                                Rec::Read(ReadK::Call(_, c, _), v) => cur_val[*c as usize] = Some(*v),
-                                Rec::Call(_, Req::Node(x)) => pending_top = Some(*x),
-                                Rec::Ret(_, Outcome::Val(v)) => {
-                                    if let Some(x) = pending_top.take() {
-                                        cur_val[x] = Some(*v);
-                                    }
-                                }
-                                _ => {}
-                            }
-                        }
-                        let _ = &observed;
-                        e.reads.iter().any(|(rk, v)| match rk {
-                            ReadK::Call(_, c, _) if *c as usize != n => {
-                                cur_val[*c as usize].is_some_and(|now| now != *v)
-                            }
-                            _ => false,
-                        })
-                    }
-                };
-                if changed_callee {
-                    return Some("C15/cycle_value_changes_after_nonmonotone_revision_without_new_stamp");
-                }
-            }
-        }
         let lfp = refint::lfp_kleene(prog, inp, 400)?;
         let execs = mon::executions(&log[..start]);
         fn reads_input(e: &Expr, c: usize, f: usize) -> bool {
